@@ -60,7 +60,7 @@ ASSUMPTIONS = [
     "(closed) are checked only if the library maps them (a loud refusal is not judged: the documentation is not available "
     "offline); statuses found only in the library's own tables are fed and counted without a verdict",
     "model exchange: orders with consistent documents (executedQty = sum of the trades; NEW / REJECTED orders have no trades), "
-    "decoy orders with the same id on the other symbol and in the other margin account; all-zero balances may be dropped",
+    "decoy orders with the same id on the other symbol and in the other margin account and another order with trades on the same symbol; all-zero balances may be dropped",
     "loopback HTTP as for C16",
 ]
 BOUNDS = {"quick": dict(us_step=997, trades=3, open_orders=3, balances=3), "thorough": dict(us_step=1, trades=4, open_orders=3, balances=3)}
@@ -885,6 +885,9 @@ async def _acct_binance(sc, tier, res, only=None):
                     model.orders[kind] += [doc, _b_order(kind, other_sym, 9001, "cid-A", "FILLED", "BUY",
                                                          _b_trades(kind, other_sym, 9001, (("DECOY", "0.5"),), 6000), orig="0.5")]
                     model.trades[kind][9001] = trades + _b_trades(kind, other_sym, 9001, (("DECOY", "0.5"),), 6000)
+                    t3 = _b_trades(kind, sym, 9002, (("DECOY3", "0.125"),), 8000)   # another order on the same symbol and account
+                    model.orders[kind].append(_b_order(kind, sym, 9002, "cid-B", "FILLED", "BUY", t3, orig="0.125"))
+                    model.trades[kind][9002] = t3
                     for k2 in other_margin:   # same id, same symbol, in the OTHER margin account
                         t2 = _b_trades(k2, sym, 9001, (("DECOY2", "0.25"),), 7000)
                         model.orders[k2].append(_b_order(k2, sym, 9001, "cid-A", "FILLED", "SELL", t2, orig="0.25"))
